@@ -110,6 +110,7 @@ int main(int argc, char** argv)
         p.maxFrames = tier ? 120 : 50;
         p.endpoints = 4;
         p.allowGarbage = true;
+        p.bigSegmentHistories = 16;
         return genFrameHistory(p);
     };
     prop.run = runCase;
